@@ -42,6 +42,14 @@ pub fn vx_usable_indices(statuses: &Vec<HealthStatus>) -> (r: Vec<usize>)
         forall|j: int| 0 <= j < statuses@.len() && usable(#[trigger] statuses@[j]) ==> r@.contains(j as usize),
         forall|a: int, b: int| 0 <= a < b < r@.len() ==> r@[a] < r@[b],
 { unimplemented!() }
+/// the same with `is_healthy` as the predicate: the indices of the Healthy entries, ascending
+#[verifier::external_body]
+pub fn vx_healthy_indices(statuses: &Vec<HealthStatus>) -> (r: Vec<usize>)
+    ensures
+        forall|k: int| 0 <= k < r@.len() ==> (#[trigger] r@[k]) < statuses@.len() && statuses@[r@[k] as int] == HealthStatus::Healthy,
+        forall|j: int| 0 <= j < statuses@.len() && (#[trigger] statuses@[j]) == HealthStatus::Healthy ==> r@.contains(j as usize),
+        forall|a: int, b: int| 0 <= a < b < r@.len() ==> r@[a] < r@[b],
+{ unimplemented!() }
 /// contexts.iter().filter(|ctx| filter(ctx.status())).cloned().collect(): the contexts whose published status passes the filter, in order
 #[verifier::external_body]
 pub fn vx_filter_contexts<T, F: Fn(HealthStatus) -> bool>(contexts: &Vec<HealthCheckedContext<T>>, filter: &F) -> (r: Vec<HealthCheckedContext<T>>)
